@@ -7,6 +7,8 @@ OPEN = [
  ("K3a","C15","c15.empty_name","the empty backtick-quoted name `` cannot be referenced (tokenizer drops the empty token)"),
  ("K3b","C15","c15.name_equals_literal","a quoted name equal to a literal used in the same formula (e.g. `1`) merges with that literal because term identity is the expression text"),
  ("K3c","C15","c15.name_trailing_backslash","a quoted name ending in an odd number of backslashes cannot be referenced (backslash is the tokenizer's escape character)"),
+ ("K3d","C15","c15.name_is_dot","a column named '.' cannot be referenced: the quoted token `.` is still turned into the wildcard operator"),
+ ("K3e","C15","c15.quotes_pair_across_names","inside one Python fragment, quote characters belonging to two different backtick-quoted names pair up as a Python string literal and swallow the text between them"),
  ("K4a","C17","c17.Q_call_not_reported","a column referenced through Q('name') is not reported by required_variables"),
  ("K4b","C17","c17.attribute_access_pseudo_variable","attribute access / method call on a data column (x.abs()) is reported as a dotted pseudo-variable instead of the column"),
  ("K4c","C17","c17.lambda_or_comprehension","names bound by lambdas/comprehensions inside a Python fragment are reported as required variables"),
